@@ -104,6 +104,12 @@ Fine(a) ==
                       \o ABlock(a[1], a[2], deco, Fin)
                       \o Concat([i \in DOMAIN a[3] |-> Block(a[3][i], 1, 1, <<>>, 1, 1, 1)]),
              opts |-> Opts0, tag |-> <<"deco", a[1], a[2], deco, a[3]>>] : deco \in [1..(a[1] + 1) -> DecoSeqs]}
+           \* data made of zeros (every cell, the first row, the first column): "nothing there" and "all zero" are different things
+           \cup {[text |-> VBlock("NO", "SPACE") \o WBlock("null1") \o CBlock(a[2])
+                           \o ABlock(a[1], a[2], NoDeco(a[1]), LAMBDA i, j : IF z = "all" \/ (z = "row1" /\ i = 1) \/ (z = "col1" /\ j = 1)
+                                                                            THEN "ZERO" ELSE "FIN")
+                           \o Concat([i \in DOMAIN a[3] |-> Block(a[3][i], 1, 1, <<>>, 1, 1, 1)]),
+                  opts |-> Opts0, tag |-> <<"zero", a[1], a[2], z, a[3]>>] : z \in {"all", "row1", "col1"}}
       [] Family = "C06" ->
            \* class masks on r x c blocks, NULL present or absent, policy strict / none, wrapped or not
            {[text |-> VBlock(a[6], "SPACE") \o (IF a[5] THEN WBlock("null1") ELSE <<T("W"), It("WELL", "w1")>>) \o CBlock(a[2])
